@@ -4,7 +4,7 @@
 use std::path::{Path, PathBuf};
 
 use crate::{
-    exec::{ExecRecord, TESTDATA},
+    exec::{ExecRecord, testdata},
     plan::{Fault, History, Opts, Plan, Prng, Strategy},
 };
 
@@ -25,10 +25,10 @@ pub fn corpus() -> Vec<String> {
         }
     }
     let mut out = Vec::new();
-    walk(Path::new(TESTDATA), &mut out);
+    walk(testdata(), &mut out);
     let mut all: Vec<String> = out
         .into_iter()
-        .filter_map(|p| p.strip_prefix(TESTDATA).ok().map(|r| r.to_string_lossy().to_string()))
+        .filter_map(|p| p.strip_prefix(testdata()).ok().map(|r| r.to_string_lossy().to_string()))
         .collect();
     // hand-written sources kept with the checks (absolute paths): shapes the shipped corpus lacks
     if let Some(extra) = extra_sources_dir() {
